@@ -2146,6 +2146,60 @@ fn fixed_corpus(cx: &mut Cx) {
     }
 }
 
+/// the coverage audit of C04 against the eleven classes of missed inputs (also DESIGN §4 C04 "coverage audit")
+fn audit() -> serde_json::Value {
+    json!([
+      {"class": 1, "topic": "entry paths / variants never driven",
+       "covered": "ENUMERATED FROM THE SOURCE the binary was built against (source_enumeration): every Command::X arm of try_execute_command, every literal of is_stub_command / handle_stub_command, every fn of connection_optimized.rs, the variants of CommandResult / FastPathResult, the fields of ConnectionConfig — unknown ones fail the check (C04:coverage:connection-arm-not-driven / stub-not-driven / fn-not-accounted / result-variant-not-modelled / config-field-not-generated / source-scan-failed); K cases drive every arm and stub outside and inside MULTI, arity errors, data commands of every reply kind; run()'s arms Ok(0) / Ok(n) / Err / overflow / parse error / write failure / flush failure (W ops); OptimizedRedisServer::run over loopback TCP with PERF_CONFIG_PATH files (valid, missing, empty, unparsable, every validate error arm refused); redis::BufferPool",
+       "open": "TLS / ACL features are off in the pinned build: client_cert_cn arms of new() and the NOAUTH / NOPERM paths are unreachable"},
+      {"class": 2, "topic": "input alphabet",
+       "covered": "keys / values binary, empty, with CR LF, RESP look-alike content, 8191..12000 bytes (around / above read_buffer_size); command names empty / blank / CR LF / non-UTF-8 / lower case",
+       "open": "values above 12 KB (run time of the List-based model)"},
+      {"class": 3, "topic": "comparisons at equality",
+       "covered": "overflow guard stated on the input (max == read, read+1, leftover + n = max ± 1); both batching gates at stream length -1 / = / +1; look-alike count vs batch_threshold at k-1 / k / k+1; every look-alike cut at every byte (< 12, < HEADER_LEN+1, < total_needed, <= val_len_start)",
+       "open": ""},
+      {"class": 4, "topic": "configuration",
+       "covered": "the four ConnectionConfig fields through PerformanceConfig::validate: read_size 1 / 7 / 16 / 64 / 8192 / 65536, max_size = read / read+1 / usize::MAX, min_pipeline_buffer 0 / 1 / usize::MAX, batch_threshold 0 / 1 / usize::MAX; pool sizes 1..16; config FILES through the real server",
+       "open": "cargo features opt-atoi-parse / opt-itoa-encode are off (trusted base)"},
+      {"class": 5, "topic": "capacity thresholds",
+       "covered": "HEADER_LEN (source-derived); pool capacity test; the recognisers' checked_add branches (usize::MAX .. usize::MAX-40, 2^63, key and value, fast path and collectors); pipelines of 64..2049 commands in ONE read, in reads of 8192, gate closed; 300 commands in one TCP write",
+       "open": ""},
+      {"class": 6, "topic": "fault kinds",
+       "covered": "read error at every read index; poll_write failing after any number of accepted bytes (every byte position of a reply stream), Ok(0), partial writes of every size, flush failure at the 1st / 2nd / 3rd flush, the overflow path's ignored write failing, Pending polls on read / write / flush, client leaving mid-frame, panics (caught, attributed by cause)",
+       "open": "a peer that never accepts: write_all waits by design, there is no timeout to test"},
+      {"class": 7, "topic": "history shapes",
+       "covered": "successive connections on one pool; after a protocol error (later reads, same read swallowed, repeated, tiny reads); deep pipelines; MULTI blocks with every connection-level command queued and replayed by EXEC, nested MULTI, EXEC / DISCARD without MULTI",
+       "open": ""},
+      {"class": 8, "topic": "node-global state",
+       "covered": "server-wide buffer pool (hook H1b and the real server), redis::BufferPool",
+       "open": "ACL manager shared between connections (feature off); metrics (never read by logic)"},
+      {"class": 9, "topic": "observations",
+       "covered": "decoded replies (count, order, content), end state, undecoded tail; the exact BYTES the peer received and the number of reads the handler made (W ops); at EVERY read call of the handler: replies on the wire >= commands complete in the bytes delivered so far (C04:reply-withheld:until-more-input); over TCP a client that WAITS without closing (C04:tcp:reply-withheld)",
+       "open": "error texts of executor replies are compared against the sent-alone twin only"},
+      {"class": 10, "topic": "finding signatures",
+       "covered": "look-alikes by class membership + model agreement; C04:crash:whitespace-command-name by cause (first command outside MULTI with a white-space-only name, index panic, at most the earlier commands answered, must_agree with the model of the current code); any other crash on a well-formed pipeline is C04:crash:well-formed-stream",
+       "open": ""},
+      {"class": 11, "topic": "harness fragility",
+       "covered": "source read from the tree the binary was built against; a failed scan is a violation; skipped MULTI-prefix cases are counted; read sizes below 64 are not combined with multi-kilobyte frames (quadratic re-parse in code and model alike)",
+       "open": "the TCP port is derived from the pid and retried on AddrInUse"}
+    ])
+}
+
+/// throw-away mutations of a private clone of /repo: after = this harness, before = harness of commit 0afddff
+fn mutations_self_tested() -> serde_json::Value {
+    json!([
+      {"mutation": "run(): the sequential drain loop stops after 128 commands per read (the shape of a round-5 seeded change)", "class": "5 capacity thresholds / 9 observations", "before": "missed (exit 0)", "after": "C04:reply-withheld:until-more-input (129 complete commands, 128 replies on the wire), C04:reply-count:missing-reply, C04:tcp:reply-withheld"},
+      {"mutation": "run(): a failed write_all `continue`s instead of `break`", "class": "6 fault kinds", "before": "model disagreement only (no-failing-input-found)", "after": "C04:write:not-a-prefix-of-the-reply-stream with the peer script and the bytes received"},
+      {"mutation": "run(): `stream.write(&write_buffer)` (one call) instead of write_all", "class": "6 fault kinds (partial writes)", "before": "missed (exit 0)", "after": "C04:write:reply-bytes-missing, C04:write:not-a-prefix-of-the-reply-stream"},
+      {"mutation": "try_execute_command: the UNWATCH arm returns without encoding a reply", "class": "1 entry paths", "before": "missed (exit 0)", "after": "C04:reply-count:missing-reply (K cases)"},
+      {"mutation": "the batching gate `>=` → `>`", "class": "3 equality", "before": "caught (1 op, look-alike at the gate by chance)", "after": "8 ops of the boundary corpus (model disagreement, look-alike input: no property-level failing input)"},
+      {"mutation": "`set_count >= batch_threshold` → `>`", "class": "3 equality", "before": "caught (5 ops)", "after": "caught (74 ops)"},
+      {"mutation": "try_fast_set: value length added with wrapping_add", "class": "5 capacity thresholds", "before": "missed (exit 0)", "after": "C04:crash:huge-value-length (attempt to add with overflow) on `*3\\r\\n$3\\r\\nSET\\r\\nX$1\\r\\nk\\r\\n$18446744073709551615\\r\\nab`"},
+      {"mutation": "PerformanceConfig::validate forgets `max_size < read_size`", "class": "4 configuration / 1 entry paths (server_optimized.rs)", "before": "missed (exit 0)", "after": "C04:config:invalid-accepted:invalid:max-below-read (the real server starts)"},
+      {"mutation": "run(): a failed flush is ignored", "class": "6 fault kinds", "before": "see DESIGN §10.1", "after": "model disagreement on 152 W ops (number of reads made after the failed flush); no property-level failing input: the bytes are still a prefix of the reply stream"}
+    ])
+}
+
 fn run_inner(a: &Args) {
     crate::c15::install_silent_panic_hook();
     let mut cx = Cx { out: Out::new(&a.out), runner: Runner::new() };
@@ -2249,6 +2303,8 @@ fn run_inner(a: &Args) {
             check_wellformed(&mut cx, &cfg, &cmds, &segs, "random");
         }
     }
+    cx.out.extra.insert("audit".into(), audit());
+    cx.out.extra.insert("mutations_self_tested".into(), mutations_self_tested());
     cx.out.finish("case = one connection: configuration (min_pipeline_buffer, batch_threshold, read_buffer_size) + network segments of a pipeline of GET/SET/PING/ECHO/MULTI/EXEC/unknown commands (or a well-formed prefix followed by one malformed frame); distinct by canonical op text; non-trivial iff at least 2 commands arrive in at least 2 segments (malformed cases: always)");
 }
 
